@@ -29,6 +29,9 @@ CTX: contextvars.ContextVar = contextvars.ContextVar("twz_token", default=None)
 EXECS: dict = {}
 REACH = Counter()  # how often each observation point was reached (zero => inconclusive)
 _ids = itertools.count(1)
+# the "request" of the client operation in progress (a ContextVar set by the harness before every operation): plain Python runs
+# the functions in the caller's context, and tawazi documents that the context is propagated to the threads of async-thread nodes
+REQ: contextvars.ContextVar = contextvars.ContextVar("twz_request", default=None)
 
 FIRST_COMPLETED = cf.FIRST_COMPLETED
 ALL_COMPLETED = cf.ALL_COMPLETED
